@@ -710,7 +710,25 @@ func (c *c13) Run(cs core.Case) core.Result {
 			h.judge(r, fmt.Sprintf("deleted %v", del))
 			r.Key("%s|subset|%d", p.Fmt, mask)
 		}
-		r.Sample(map[string]interface{}{"format": p.Fmt, "family": "subsets", "files": h.names[:n], "subsets": 1<<uint(n) - 1})
+		// a protected file that is a symbolic link into a directory which no
+		// longer exists: it cannot be read and it cannot be written
+		var rels []string
+		for rel := range h.data {
+			rels = append(rels, rel)
+		}
+		sort.Strings(rels)
+		for _, rel := range rels {
+			h.restore()
+			pth := filepath.Join(h.dir, rel)
+			os.Remove(pth)
+			if os.Symlink(filepath.Join(h.root, "gone", "away", filepath.Base(rel)), pth) != nil {
+				continue
+			}
+			h.judge(r, fmt.Sprintf("%s is a dangling symbolic link into a deleted directory", rel))
+			os.Remove(pth)
+			r.Key("%s|dangling|%s", p.Fmt, rel)
+		}
+		r.Sample(map[string]interface{}{"format": p.Fmt, "family": "subsets", "files": h.names[:n], "subsets": 1<<uint(n) - 1, "dangling_links": len(rels)})
 	case "crash-points":
 		// The write sequence of Create, in order: for every prefix, the
 		// last written file is torn.
